@@ -375,7 +375,9 @@ func (u *Unit) callFunc(st *State, fo *types.Func, recv *Val, args []Val, c *ast
 	delete(st.ghost, "writeback")
 	var res []Val
 	if ct != nil && !ct.Inline {
+		u.curCallArgs = c.Args
 		res = u.applyContract(st, ct, pk, key, nil, sigT, recv, args, c.Pos(), nil)
+		u.curCallArgs = nil
 	} else if decl := u.eng.findDecl(pk, key); decl != nil && u.canInline(decl, pk, key) {
 		res = u.inlineDecl(st, pk, decl, recv, args, c)
 	} else {
@@ -516,7 +518,47 @@ func (u *Unit) applyContract(st *State, ct *Contract, pk, key string, _ any, sig
 	if !ct.Pure {
 		u.havocModifies(st, pre, ct, env, lit)
 	}
-	post := u.calleeEnv(st, pre, ct, pk, sig, declSig, recv, args, results)
+	// out-parameters: slices whose elements the callee may overwrite
+	postArgs := args
+	oldNames := map[string]Val{}
+	if len(ct.Writes) > 0 {
+		postArgs = append([]Val{}, args...)
+		callArgs := u.curCallArgs
+		for _, w := range ct.Writes {
+			idx := -1
+			for i := 0; i < declSig.Params().Len(); i++ {
+				if declSig.Params().At(i).Name() == w {
+					idx = i
+				}
+			}
+			for i, p := range ct.Params {
+				if p.Name == w {
+					idx = i
+				}
+			}
+			if idx < 0 || idx >= len(args) {
+				u.unsupported(pos, "contract of %s: writes %s: no such parameter", key, w)
+			}
+			old := args[idx]
+			if _, ok := old.Ty.Underlying().(*types.Slice); !ok {
+				u.unsupported(pos, "contract of %s: writes %s: not a slice", key, w)
+			}
+			es := u.sortOf(old.Ty.Underlying().(*types.Slice).Elem())
+			na := u.fresh("written", "(Array Int "+es+")")
+			_, _, ln, isnil := u.sliceParts(old)
+			nv := Val{T: u.mkSlice(old.So, na, "0", ln, isnil), Ty: old.Ty, So: old.So}
+			postArgs[idx] = nv
+			oldNames["old_"+w] = old
+			// write back into the caller's variable (x or x[:] of an array x)
+			if callArgs != nil && idx < len(callArgs) {
+				u.writeBackSlice(st, callArgs[idx], nv, pos)
+			}
+		}
+	}
+	post := u.calleeEnv(st, pre, ct, pk, sig, declSig, recv, postArgs, results)
+	for k, v := range oldNames {
+		post.names[k] = v
+	}
 	if lit != nil {
 		post.scope = env.scope
 		post.pos = env.pos
@@ -967,4 +1009,40 @@ func (u *Unit) joinN(base *State, arms []*State, extra [][]Val) (*State, []Val) 
 		}
 	}
 	return out, res
+}
+
+// writeBackSlice stores the new contents of an out-parameter slice into the expression it was
+// taken from: a slice variable/field, or x[:] / x[a:b] of an array or slice x.
+func (u *Unit) writeBackSlice(st *State, arg ast.Expr, nv Val, pos token.Pos) {
+	arg = ast.Unparen(arg)
+	switch x := arg.(type) {
+	case *ast.SliceExpr:
+		base := u.eval(st, x.X)
+		lo := "0"
+		if x.Low != nil {
+			lo = u.eval(st, x.Low).T
+		}
+		narr, _, nlen, _ := u.sliceParts(nv)
+		u.nfresh++
+		i := fmt.Sprintf("wi!%d", u.nfresh)
+		switch bt := base.Ty.Underlying().(type) {
+		case *types.Array:
+			so := u.sortOf(base.Ty)
+			na := u.fresh("arr", so)
+			st.assume(fmt.Sprintf("(forall ((%s Int)) (! (= (select %s %s) (ite (and (<= %s %s) (< %s (+ %s %s))) (select %s (- %s %s)) (select %s %s))) :pattern ((select %s %s))))", i, na, i, lo, i, i, lo, nlen, narr, i, lo, base.T, i, na, i))
+			u.assign(st, x.X, Val{T: na, Ty: base.Ty, So: so})
+			_ = bt
+		case *types.Slice:
+			barr, _, bln, bnil := u.sliceParts(base)
+			na := u.fresh("arr", "(Array Int "+u.sortOf(bt.Elem())+")")
+			st.assume(fmt.Sprintf("(forall ((%s Int)) (! (= (select %s %s) (ite (and (<= %s %s) (< %s (+ %s %s))) (select %s (- %s %s)) (select %s %s))) :pattern ((select %s %s))))", i, na, i, lo, i, i, lo, nlen, narr, i, lo, barr, i, na, i))
+			u.assign(st, x.X, Val{T: u.mkSlice(base.So, na, "0", bln, bnil), Ty: base.Ty, So: base.So})
+		default:
+			u.unsupported(pos, "out-parameter taken from %v", base.Ty)
+		}
+	case *ast.Ident, *ast.SelectorExpr:
+		u.assign(st, arg, nv)
+	default:
+		u.warnings = append(u.warnings, u.posStr(pos)+": out-parameter argument is not addressable; effects on it are lost")
+	}
 }
